@@ -111,6 +111,7 @@ __wrap_free(void * p)
 	__real_free(p);
 }
 #define LIB(kind, secret, call) do { lib_kind = (kind); lib_secret = (secret); call; lib_kind = NULL; lib_secret = NULL; } while (0)
+#define NOFAIL(call) do { call; } while (0)
 #elif defined(DRV_SELFAIL)
 void * __real_malloc(size_t);
 void * __real_crypto_aes_key_expand_aesni(const uint8_t *, size_t);
@@ -118,6 +119,7 @@ void __real_crypto_aes_encrypt_block_aesni(const uint8_t[16], uint8_t[16], const
 void __real_crypto_aesctr_aesni_stream(struct crypto_aesctr *, const uint8_t *, uint8_t *, size_t);
 
 static int in_lib = 0;			/* inside an allocating library call */
+static int refuse_all = 0;		/* inside crypto_aesctr_stream / crypto_aesctr_buf (void: cannot fail) */
 static long lib_allocs = 0, fail_nth = 0;
 static int refused = 0, knull = 0;
 static int probing = 0;			/* wrapped AES-NI entry points record and return */
@@ -127,6 +129,10 @@ void *
 __wrap_malloc(size_t n)
 {
 
+	if (refuse_all) {	/* inside an operation that cannot fail: it has no business allocating */
+		refused++;
+		return (NULL);
+	}
 	if (in_lib && (++lib_allocs == fail_nth)) {
 		refused++;
 		return (NULL);
@@ -166,8 +172,12 @@ __wrap_crypto_aesctr_aesni_stream(struct crypto_aesctr * stream, const uint8_t *
 	__real_crypto_aesctr_aesni_stream(stream, inbuf, outbuf, buflen);
 }
 #define LIB(kind, secret, call) do { in_lib++; call; in_lib--; } while (0)
+/* crypto_aesctr_stream and crypto_aesctr_buf return nothing: they cannot report a failure, so they
+ * must complete whatever the allocator says - every allocation attempted inside them is refused */
+#define NOFAIL(call) do { refuse_all++; call; refuse_all--; } while (0)
 #else
 #define LIB(kind, secret, call) do { call; } while (0)
+#define NOFAIL(call) do { call; } while (0)
 #endif
 
 static void
@@ -370,12 +380,12 @@ do_ctr(char ** tok, int n)
 		case 's': case 'S': {
 			size_t len; uint8_t * in = drv_unhex(arg, &len, 0);
 			if (t[0] == 'S') {
-				crypto_aesctr_stream(stream, in, in, len);
+				NOFAIL(crypto_aesctr_stream(stream, in, in, len));
 				emit(in, len);
 			} else {
 				uint8_t * out = drv_outbuf(len);
 				uint8_t * cp = input_copy(in, len);
-				crypto_aesctr_stream(stream, in, out, len);
+				NOFAIL(crypto_aesctr_stream(stream, in, out, len));
 				emit(out, len); input_check(cp, in, len); free(out);
 			}
 			free(in);
@@ -388,7 +398,7 @@ do_ctr(char ** tok, int n)
 			in = drv_unhex(colon + 1, &len, 0); out = drv_outbuf(len);
 			{ uint8_t * cp = input_copy(in, len);
 			DECOY(in, len, out, len, crypto_aesctr_buf(cur, parse_nonce(arg), in, out, len));
-			crypto_aesctr_buf(cur, parse_nonce(arg), in, out, len);
+			NOFAIL(crypto_aesctr_buf(cur, parse_nonce(arg), in, out, len));
 			emit(out, len); input_check(cp, in, len); }
 			free(in); free(out);
 			break;
